@@ -348,7 +348,10 @@ PROPS = {
         "rule": "texts over {ASCII, 2-/3-/4-byte chars, CR, LF, CRLF}; per text: 3x IDX/SPECIDX (get_insertion_index: impl vs model "
                 "vs independent line-table spec LspPos) at valid and overshooting positions, POS (as_position), PROPRT (index -> "
                 "position -> index on every char boundary), PROPTOK (every token range fed back addresses the token), CHG/SPECCHG "
-                "(1-4 notifications of 1-3 ranged/full-text changes: server text vs model vs client semantics). " + TEXT_RULE,
+                "(1-4 notifications of 1-3 ranged/full-text changes: server text vs model vs client semantics), SPECDOCTEXT (every "
+                "4th case: a history of didOpen / didChange batches incl. range-less changes with EMPTY text / didClose / reopen on two "
+                "documents through the REAL broker task, the server's copy probed after every step vs the Lean text model; histories on "
+                "which the document model predicts a panic of the tree layer are KF-C02's and not judged). " + TEXT_RULE,
         "unproved_parts": ["position_roundtrip (index -> position -> index is the identity on character boundaries outside a CRLF pair) "
                            "is evaluated (PROPRT, PROPTOK) on implementation and model, not yet a theorem"],
     },
